@@ -50,6 +50,9 @@ ALLOW = {
 }
 
 
+OVERLAYS = ('K2b',)
+
+
 def run(chk):
     P = mir.Program("K1")
     chk.use_program(P)
